@@ -241,7 +241,10 @@ def check(case, env):
         # strong oracle (requests without '..' and with a virtual spelling)
         if v is None and case["kind"] in ("canonical", "mutate") and ".." not in req:
             segs = [s for s in req.replace("\\", "/").split("/") if s and s != "."]
-            if "mut_dot" not in labs and "mut_upper" not in labs:
+            # a request without leading separator is a relative path: from an including file it is taken against that file
+            # (physically next to it, else through its virtual directory), so only containment is asserted for it
+            relative_from_file = op == "include" and "mut_nolead" in labs
+            if "mut_dot" not in labs and "mut_upper" not in labs and not relative_from_file:
                 exp = vfs.resolve(segs)
                 if op == "include" and exp and os.path.relpath(exp, base) == case["inc_from"]:
                     return Result(inconclusive=True, labels=sorted(labs | {"self_include"}))
